@@ -77,6 +77,8 @@ def gen_cases(rng, tier):
                              grids={"nr": rng.choice([2, 3, 5, 9, 21, 60]), "nrho": rng.choice([2, 3, 5, 9, 30])})
       if groute == "api":
         m["api_containers"] = rng.choice([None, None, "tuple", "generator", "map", "amend_after_write"])
+    if groute == "api" and i % 4 == 1:
+      m["api_results"] = "numpy0d"
     cases.append({"kind": "excel", "route": route, "model": m, "style": rng.randrange(1 << 30)})
   # look-alike labels, deterministically: 'Ce-O' next to 'Ce+-O' ('+' collates before '-'): the order of the species
   # tuples and the order of the 'A-B' strings differ, so a column filled in one order and headed in the other shows
@@ -449,6 +451,8 @@ def run_case(case, ctx):
   ctx.cls("route:" + case["route"])
   if case["kind"] == "funcfl":
     case["model"]["api_containers"] = [None, "tuple"][case["style"] % 2]   # writeFuncFL indexes its lists: sequences only
+  if (case.get("model") or {}).get("api_results"):
+    ctx.cls("api_results:" + case["model"]["api_results"])
   if (case.get("model") or {}).get("api_variant"):
     ctx.cls("api_variant:" + case["model"]["api_variant"])
   if case["model"].get("api_containers"):
